@@ -342,6 +342,7 @@ def run(ctx):
                        "{send, receive, sleep interval/2, sleep interval} for ops 1..2 x capacity 0..1, and cancel/close placed at random points; non-trivial = a send completed and a value or the close was "
                        "observed; distinct by script text")
     ctx.assumptions += ls.ASSUME + ["time.After/timers fire punctually on the synctest virtual clock; real timers can only be later (lower bounds and the window bound are proved for late timers too, the upper bound only for the eager model)"]
+    ls.regen_stages(ctx, pipe=False, fork=False, sources=True)
     ctx.prove()
     if ctx.thorough():
         ctx.leanchecker()
